@@ -14,7 +14,7 @@ from models.m_seq import seq_values
 ID = 'C07'
 PROGRAMS = {'core': dict(crate='vaporetto', features=['train', 'kytea'])}
 UNIT_CAP = 200
-BUDGET_S = {'quick': 200, 'thorough': 1800}
+BUDGET_S = {'quick': 600, 'thorough': 1200}      # wall-clock safety caps (exceeding one is reported as inconclusive); typical quick runs take 1-200 s
 
 SHAPES = {
     'plain': {'cw': 2, 'tw': 1, 'char': ['a', 'ba'], 'type': ['R'], 'dict': ['ab']},
